@@ -90,7 +90,13 @@ def build(pkg, profile, features=(), toolchain=None, rustflags_extra="", target_
         p = subprocess.run(cmd, cwd=src, env=env, stdout=subprocess.PIPE, stderr=subprocess.STDOUT, text=True)
         if p.returncode != 0:
             tail = "\n".join(p.stdout.splitlines()[-60:])
-            raise BuildFailed("build of %s (%s, %s) failed:\n%s" % (pkg, profile, ",".join(features), tail))
+            e = BuildFailed("build of %s (%s, %s) failed:\n%s" % (pkg, profile, ",".join(features), tail))
+            # did the library itself fail to compile (as opposed to the engine built on top of it)?
+            e.in_library = ("could not compile `gecs`" in p.stdout) or ("could not compile `gecs_macros`" in p.stdout)
+            e.features = features
+            e.profile = profile
+            e.tail = tail
+            raise e
         triple = None
         for a in extra_args:
             if a.startswith("--target="):
